@@ -63,4 +63,5 @@ F48 known arguments that do not fit the function
 F49 apply_params without sources= no longer shares
 F50 modifiers.annotate can annotate a parameter called self
 F53 annotations of functools.wraps wrappers are resolved
+F55 takes loops into account
 LIST
